@@ -248,6 +248,7 @@ ATTRSETS = [
     [[0, 1, 0], [1, 2, [2, 1, 0, 0, 253, 233]]],
     [[0, 1, 2], [1, 2, [2, 2, 0, 0, 253, 233, 0, 1, 0, 0]], [0, 4, 77], [0, 5, 200], [1, 8, [255, 255, 255, 1, 0, 1, 0, 2]]],
     [[0, 1, 1], [1, 2, []], [2, 99, 0xc0, [1, 2, 3, 4, 5]], [1, 32, [0, 0, 0, 1, 0, 0, 0, 2, 0, 0, 0, 3]]],
+    [[0, 1, 0], [1, 2, [2, 1, 0, 0, 253, 233]], [1, 8, [-1, 300, 7]]],     # extended-length attribute, block > 255 bytes
 ]
 
 def pick(rng, l):
